@@ -1,6 +1,7 @@
 from __future__ import annotations
 
 import logging
+import re
 import warnings
 from codecs import encode, open as codecs_open
 from collections import namedtuple
@@ -74,7 +75,8 @@ class BMSMap(Map[BMSNoteList, BMSHitList, BMSHoldList, BMSBpmList], BMSMapMeta):
                 # Else, it may be an unfilled header or a note data.
 
                 # Sometimes titles have spaces, so we split maximum of once.
-                line_split = line.encode("shift_jis").strip().split(b" ", 1)
+                # The separator is a blank: a space or a tab
+                line_split = re.split(rb"[ \t]", line.encode("shift_jis").strip(), 1)
 
                 if len(line_split) == 2:
                     # Header Metadata (Filled)
